@@ -206,9 +206,6 @@ theorem rebinLoop_no_fault (obs : Array Nat) (expect : Array α) (minc cap : Nat
 
 /-! ## `Goodness` as a whole -/
 
-/-- the first bin `esl_histogram_Goodness` evaluates -/
-def goodnessBase (h : Hist α) (e : Expect α) : Int := if e.isTailfit && e.emin > h.cmin then e.emin else h.cmin
-
 theorem minc_cap (nobs d : Nat) (hd : 0 < d) : nobs < (1 + nobs / d) * (d + 1) := by
   have h1 : nobs < d * (nobs / d + 1) := Nat.lt_mul_div_succ nobs hd
   have h2 : d * (nobs / d + 1) ≤ (1 + nobs / d) * (d + 1) := by
@@ -325,5 +322,43 @@ theorem goodness_accounts (h : Hist α) (e : Expect α) (nfitted : Int) (g : Goo
               rw [← hg.1] at hok ⊢
               obtain ⟨a, b⟩ := goodnessStats_ok _ nfitted hok
               exact ⟨a, by rw [a]; exact b⟩
+
+/-! ## `PlotQQ` -/
+
+theorem qqRows_ok (obs : Array Nat) : ∀ (k : Nat) (i : Int) (s : Nat) (acc : List (Int × Nat)), 0 ≤ i → i + k ≤ obs.size →
+    ∃ rows, qqRows obs k i s acc = .val rows ∧ rows.length = acc.length + k := by
+  intro k
+  induction k with
+  | zero => intro i s acc _ _; exact ⟨acc.reverse, rfl, by simp⟩
+  | succ k ih =>
+    intro i s acc h0 h1
+    unfold qqRows getObs
+    have hb : 0 ≤ i ∧ i.toNat < obs.size := ⟨h0, by omega⟩
+    simp only [hb, and_self, if_true]
+    obtain ⟨rows, e, hl⟩ := ih (i + 1) (s + obs.getD i.toNat 0) ((i, s + obs.getD i.toNat 0) :: acc) (by omega) (by omega)
+    exact ⟨rows, e, by rw [hl, List.length_cons]; omega⟩
+
+/-- **`esl_histogram_PlotQQ` reads only inside `obs[]`** and prints one row per bin `bbase..imax-1` (every numeric class): well-formed histogram,
+    `0 ≤ cmin`, and — for a tail fit — `emin ≤ nb` (what `SetExpectedTail` guarantees since 7d2bcba) -/
+theorem plotQQ_ok (h : Hist α) (hwf : h.WF) (hidx : IdxOK h) (hc : 0 ≤ h.cmin) (hcn : h.cmin ≤ h.nb) (e : Expect α) (he : e.emin ≤ h.nb) :
+    ∃ rows, h.plotQQ e = .val rows ∧ rows.length = (h.imax - goodnessBase h e).toNat := by
+  unfold Hist.plotQQ
+  simp only []
+  have hsz := hwf.size
+  have hb0 : h.cmin ≤ goodnessBase h e ∧ goodnessBase h e ≤ h.nb := by
+    unfold goodnessBase
+    split
+    · rename_i hh; simp only [Bool.and_eq_true, decide_eq_true_eq] at hh; omega
+    · omega
+  have himax : h.imax < h.nb := by
+    rcases hidx with ⟨_, h2⟩ | ⟨_, _, h3⟩
+    · have := hwf.nb_pos; omega
+    · exact h3
+  obtain ⟨T, e1, _⟩ := goodnessCount_ok h.obs (goodnessBase h e - h.cmin).toNat h.cmin
+    (if h.datasetIs == .trueCensored || h.datasetIs == .virtualCensored then h.z else 0) hc (by omega)
+  rw [e1]
+  simp only []
+  obtain ⟨rows, e2, hl⟩ := qqRows_ok h.obs (h.imax - goodnessBase h e).toNat (goodnessBase h e) T [] (by omega) (by omega)
+  exact ⟨rows, e2, by simpa using hl⟩
 
 end EaselModel.Stats
